@@ -285,12 +285,19 @@ fn op_case(ctx: &mut Ctx, d: Drv, offered: u64, opc: u128, arg: u128) {
             (Built::Net8(x), 7) => { qidx = Some(1); x.send(TxBuffer::from(&vec![0xabu8; arg as usize]))?; 0 }
             (Built::Net32(x), 7) => { qidx = Some(1); x.send(TxBuffer::from(&vec![0xabu8; arg as usize]))?; 0 }
             (Built::Rng(x), 8) => { qidx = Some(0); x.request_entropy(&mut vec![0xffu8; arg as usize])? as u128 }
+            (Built::Gpu(x), 9) => { qidx = Some(0); x.edid_preferred_resolution()?; 0 }
+            (Built::Gpu(x), 10) => { qidx = Some(0); x.edid_supported_resolutions()?; 0 }
+            // the device completes one receive buffer; the frame is found behind a header of the negotiated form
+            (Built::Net2(x), 11) => { dev.borrow_mut().service(0); let rb = x.receive()?; (rb.packet().as_ptr() as usize - rb.as_bytes().as_ptr() as usize) as u128 }
+            (Built::Net8(x), 11) => { dev.borrow_mut().service(0); let rb = x.receive()?; (rb.packet().as_ptr() as usize - rb.as_bytes().as_ptr() as usize) as u128 }
+            (Built::Net32(x), 11) => { dev.borrow_mut().service(0); let rb = x.receive()?; (rb.packet().as_ptr() as usize - rb.as_bytes().as_ptr() as usize) as u128 }
             _ => return Err(Error::InvalidParam),
         })
     }));
     let rec = drivers::take_records();
     let res: [u128; 2] = match &r { Ok(Ok(v)) => [0, *v], Ok(Err(e)) => [1, err_code(e)], Err(_) => [2, 0] };
-    let ev = drivers::enc_events(&rec);
+    // op 11: the events of the receive path belong to C16; only the header form is looked at here
+    let ev = if opc == 11 { drivers::enc_events(&Records { log: vec![], qnew: vec![], ap_alloc: vec![], ap_share: vec![] }) } else { drivers::enc_events(&rec) };
     let (ue, si) = { let dv = dev.borrow(); (qidx.map(|q| dv.used_event(q)).unwrap_or(0) as u128, dv.saw_indirect as u128) };
     let mut ins = vec![d.code(), offered as u128, 0, opc, arg, c.cfg.len() as u128];
     ins.extend(c.cfg.iter().map(|x| *x as u128));
@@ -307,8 +314,8 @@ fn op_case(ctx: &mut Ctx, d: Drv, offered: u64, opc: u128, arg: u128) {
 
 fn ops_of(d: Drv) -> Vec<(u128, u128)> {
     match d {
-        Drv::Blk => vec![(1, 0), (2, 0)], Drv::Console => vec![(3, 0), (4, 0x41)], Drv::Gpu => vec![(5, 0)],
-        Drv::NetRaw => vec![(6, 0), (7, 60), (7, 0), (7, 1), (7, 1514)], Drv::Net => vec![(7, 61), (7, 0), (7, 1)], Drv::Rng => vec![(8, 16)], _ => vec![],
+        Drv::Blk => vec![(1, 0), (2, 0)], Drv::Console => vec![(3, 0), (4, 0x41)], Drv::Gpu => vec![(5, 0), (9, 0), (10, 0)],
+        Drv::NetRaw => vec![(6, 0), (7, 60), (7, 0), (7, 1), (7, 1514)], Drv::Net => vec![(7, 61), (7, 0), (7, 1), (11, 0)], Drv::Rng => vec![(8, 16)], _ => vec![],
     }
 }
 
